@@ -1,2 +1,52 @@
-From TV Require Import Base.
-Example C09_placeholder : True. Proof. exact I. Qed.
+(* C09 -- system simulations are transparent.
+   The flat wiring equivalent to a nesting is defined in Coq ([flatten], Oracle/SimOracle.v):
+   external / exposed ports are resolved to the device output that really drives them.
+   Proved here, for every configuration:
+   (1) the devices of the flattening are exactly the devices the nested model visits, in the same
+       order; a configuration without system simulations is its own flattening;
+   (2) initial-tick transparency: in the master's initial tick the nested model updates exactly the
+       devices of the flattening, each once, at the initial time -- as the flat model does.
+   PARTIAL: equality of the full observation sequences (times AND values, over multi-tick
+   histories with callbacks and interrupts) between a nesting and its flattening is not proved;
+   it is decided per pair of runs of the real schedulers (codes 71/72) and per run by the oracles
+   shared with C03/C06/C12 -- [check_flat_pair] also checks that the harness's flat configuration
+   IS the Coq flattening (code 73).  Property theorems only. *)
+From TV Require Import Base Model.Wiring Model.Ticker Model.Component Model.Sim Oracle.SimCheck Oracle.SimOracle
+  Proofs.SimP Proofs.FlattenP.
+Open Scope Z_scope.
+
+Theorem C09_flat_devices : forall cfg fuel lv, flat_order fuel cfg lv = devices_below cfg fuel lv.
+Proof. intros. apply flat_order_devices. Qed.
+
+Theorem C09_flat_identity : forall l,
+  (forall c k, In (c, k) (l_order l) -> k = KDev /\ c <> ext_id) ->
+  forall u p c q,
+    In (u, p, c, q) (flat_conns [(1%positive, l)]) <->
+    In (u, p, c, q) (l_conns l) /\ lookup c (l_order l) = Some KDev /\ lookup u (l_order l) = Some KDev.
+Proof. exact flat_conns_single. Qed.
+
+(* the nested initial tick observes exactly the flattened device list *)
+Theorem C09_initial_transparent : forall cfg devf fuel initial s0,
+  (forall c lv', In (c, KSys lv') (l_order (level_of cfg top)) -> deep_enough cfg fuel lv') ->
+  NoDup (flat_map (sub_levels cfg fuel) (l_order (level_of cfg top))) ->
+  (forall x, In x (flat_map (sub_levels cfg fuel) (l_order (level_of cfg top))) -> ~ In x (s_ticked s0)) ->
+  real_ids cfg top ->
+  (forall x, In x (flat_map (sub_levels cfg fuel) (l_order (level_of cfg top))) -> real_ids cfg x) ->
+  let roots := map fst (l_order (level_of cfg top)) in
+  let '(s1, _, ob) := tick_level cfg devf fuel top initial roots [] s0 in
+  map obs_comp ob = flat_order (S fuel) cfg top /\ (forall o, In o ob -> obs_time o = initial).
+Proof.
+  intros cfg devf fuel initial s0 H1 H2 H3 H4 H5 roots.
+  pose proof (initial_tick_obs cfg devf fuel initial s0 H1 H2 H3 H4 H5) as H. cbv zeta in H.
+  fold roots in H. destruct (tick_level cfg devf fuel top initial roots [] s0) as [[s1 o] ob].
+  destruct H as [Ha Hb]. split; [|exact Hb]. rewrite Ha. cbn [flat_order].
+  apply flat_map_ext. intros [c k]. destruct k as [|lv']; cbn [sub_devices snd fst]; [reflexivity|].
+  symmetry. apply flat_order_devices.
+Qed.
+
+Example C09_example :
+  let cfg := [(1%positive, {| l_order := [(3%positive, KDev); (4%positive, KSys 2%positive); (8%positive, KDev)];
+                              l_conns := [(3, 1, 4, 1); (4, 1, 8, 1)]%positive |});
+              (2%positive, {| l_order := [(5%positive, KDev)]; l_conns := [(1, 1, 5, 1); (5, 1, 2, 1)]%positive |})] in
+  flat_order 40 cfg 1 = [3; 5; 8]%positive /\ flat_conns cfg = [(5, 1, 8, 1); (3, 1, 5, 1)]%positive.
+Proof. vm_compute. split; reflexivity. Qed.
